@@ -219,6 +219,40 @@ pub fn run() -> i32 {
     r.boxes.push(json!({"box": "alpha inside a set alternative (context set / input set), later use plain or inverted; disjoint alternatives", "rules": sforms.len(), "outer_segments": pick.len(), "cases": t4.evals, "model_predicts_firing": t4.nontrivial}));
     r.guard(t4.nontrivial > 10_000, "box 4: more than 10k cases fire");
     tot.evals += t4.evals; tot.nontrivial += t4.nontrivial; tot.viols.extend(t4.viols); tot.states.extend(t4.states);
+    // ---- box 5: an IPA letter with a matrix, `b:[vF]`, stands for exactly one bundle — the letter's own with F set to v (every other feature and every
+    // node, present or absent, as in the letter). Probed on the letter's whole family: all 365 base phones and the letter with each diacritic
+    let letters = ["t", "d", "k", "p", "s", "n", "m", "l", "a", "i", "u", "h", "ʔ", "q", "ʃ", "x"];
+    let dias = av::diacritics();
+    let mut t5 = Acc { evals: 0, nontrivial: 0, viols: vec![], states: Default::default(), fired: 0 };
+    let base_segs: Vec<SegBits> = segs.iter().map(|x| x.1).collect();
+    par_fold(letters.len(), 1, || Acc { evals: 0, nontrivial: 0, viols: vec![], states: Default::default(), fired: 0 }, |li, a| {
+        let l = letters[li]; let lb = seg(l);
+        let mut family: Vec<SegBits> = base_segs.clone();
+        for d in &dias { if let Out::Ok(Ok(w)) = guarded(200_000, || av::parse_word(&format!("{}{}", l, d), None)) { if w.syllables.len() == 1 && w.syllables[0].segments.len() == 1 { family.push(bits(&w.syllables[0].segments[0])); } } }
+        family.sort(); family.dedup();
+        for f in 0..26 { for v in [true, false] {
+            // a feature of a sub-node the letter does not have cannot be asked of it (the implementation then never matches; not documented)
+            if model::feat(lb, f).is_none() { continue; }
+            let want = model::set_feat(lb, f, v);
+            let text = format!("{}:[{}{}] > [tone:7]", l, if v { "+" } else { "-" }, FEATS[f].0);
+            let Out::Ok(Ok(compiled)) = guarded(5_000_000, || av::compile(&[group(&[&text])])) else { a.viols.push(Viol { key: format!("compile|{}", text), desc: format!("`{}` does not compile", text), case: json!({"rule": text}) }); continue; };
+            for x in &family {
+                let w: CW = vec![CSyl { segs: vec![*x], stress: 0, tone: 0 }];
+                let fires = *x == want;
+                let mut e = w.clone(); if fires { e[0].tone = 7; }
+                a.evals += 1;
+                match guarded(200_000, || av::apply_group(&compiled, 0, word_of(&w)).map(|x| cw_of(&x))) {
+                    Out::Ok(Ok(got)) if got == e => { if fires { a.nontrivial += 1; } a.states.insert(hash64(&(li, f, v, fires))); }
+                    Out::Ok(Ok(got)) => a.viols.push(Viol { key: format!("{}|{}", text, show_cw(&w)), desc: format!("`{}` on /{}/: the item stands for /{}/ only: model /{}/, implementation /{}/", text, show_cw(&w), show_cw(&vec![CSyl { segs: vec![want], stress: 0, tone: 0 }]), show_cw(&e), show_cw(&got)), case: json!({"rule2": text, "word": cw_json(&w), "expected": cw_json(&e)}) }),
+                    Out::Ok(Err(er)) => a.viols.push(Viol { key: format!("{}|{}", text, show_cw(&w)), desc: format!("`{}` on /{}/: error {:?}", text, show_cw(&w), er), case: json!({"rule2": text, "word": cw_json(&w), "expected": cw_json(&e)}) }),
+                    o => a.viols.push(Viol { key: format!("crash|{}", text), desc: o.crash_desc().unwrap(), case: json!({"rule2": text, "word": cw_json(&w), "expected": cw_json(&e)}) }),
+                }
+            }
+        } }
+    }, |a| { t5.evals += a.evals; t5.nontrivial += a.nontrivial; t5.viols.extend(a.viols); t5.states.extend(a.states); });
+    r.boxes.push(json!({"box": "IPA letter with a one-feature matrix as input, on the base phones and the letter's diacritic family", "letters": letters.len(), "cases": t5.evals, "model_predicts_firing": t5.nontrivial}));
+    r.guard(t5.nontrivial > 200, "box 5: more than 200 cases fire");
+    tot.evals += t5.evals; tot.nontrivial += t5.nontrivial; tot.viols.extend(t5.viols); tot.states.extend(t5.states);
     r.evaluations = tot.evals; r.transitions = tot.evals; r.validated = tot.evals; r.nontrivial = tot.nontrivial;
     r.states = tot.states;
     r.boxes.push(json!({"box": "ops x segments", "ops": ops.len(), "segments": segs.len(), "cases": tot.evals, "model_predicts_change_or_fire": tot.nontrivial}));
